@@ -1,4 +1,135 @@
-//! C03 — emitted bytes conform to the Conway CDDL (filled in below).
-use crate::engine::Ctx;
-use crate::gen::Codec;
-pub fn check<T: Codec>(_ctx: &mut Ctx, _v: &T) {}
+//! C03 — emitted bytes conform to the Conway-era CDDL wire format.
+//!
+//! Space: the C01 value space (generators restricted to what validating constructors accept and
+//! in-range arguments for plain setters) validated byte-by-byte by cddl.rs; the validating
+//! constructors probed at and just beyond their bounds; every transaction produced by the builder
+//! exploration (builder-output mode: additionally no zero-quantity asset / empty policy bundle).
+
+use crate::cddl;
+use crate::engine::{explore, guard, panic_sig, Ctx, Opts};
+use crate::gen::{self, Codec, Mode};
+use crate::props::BoxedScenario;
+use crate::report::{Report, Tier};
+use crate::util::*;
+use cardano_serialization_lib as csl;
+use csl::*;
+
+const P: &str = "C03";
+
+pub fn check<T: Codec>(ctx: &mut Ctx, v: &T) {
+    let name = T::NAME;
+    if matches!(name, "Address" | "Ed25519KeyHash" | "ScriptHash" | "TransactionHash" | "DataHash" | "AuxiliaryDataHash") {
+        // to_bytes of these types is a raw byte string, not a CBOR item
+        return;
+    }
+    let b = match guard(|| v.enc()) {
+        Ok(b) => b,
+        Err(p) => {
+            ctx.violation(panic_sig(P, &format!("{}::to_bytes", name), &p), p.msg.clone());
+            return;
+        }
+    };
+    check_bytes(ctx, name, &b, false);
+}
+
+pub fn check_bytes(ctx: &mut Ctx, name: &str, b: &[u8], builder_mode: bool) {
+    match cddl::validate(name, b, builder_mode) {
+        None => ctx.hit("no-rule-for-type"),
+        Some((errs, legacy)) => {
+            ctx.compared();
+            ctx.observe(&(name, b));
+            if legacy {
+                ctx.hit("legacy-shape");
+            }
+            if errs.is_empty() {
+                ctx.hit("conforms");
+            }
+            for (kind, msg) in errs {
+                ctx.violation(format!("{}/{}/{}", P, name, kind), format!("{} : {}", msg, short(&hx(b), 240)));
+            }
+        }
+    }
+}
+
+/// validating constructors at and just beyond their bounds: beyond must be refused
+fn sc_constructor_bounds(ctx: &mut Ctx) {
+    let case = ctx.choose_free(9);
+    let delta = ctx.choose_free(3) as i64 - 1; // -1, 0, +1 around the bound
+    let fill = ctx.choose_free(2);
+    ctx.observe(&(case, delta, fill));
+    let (what, bound): (&str, i64) = [("AssetName", 32), ("URL", 128), ("DNSRecordAorAAAA", 128), ("DNSRecordSRV", 128), ("metadatum text", 64), ("metadatum bytes", 64), ("Ipv4", 4), ("Ipv6", 16), ("metadatum text (multi-byte)", 64)][case];
+    let len = (bound + delta) as usize;
+    ctx.set_sample(|| format!("{} of length {} (bound {})", what, len, bound));
+    let s = if fill == 0 { "a".repeat(len) } else { "z".repeat(len) };
+    let bytes = vec![if fill == 0 { 0u8 } else { 0xff }; len];
+    let exact_only = case == 6 || case == 7;
+    let expect_ok = if exact_only { delta == 0 } else { delta <= 0 };
+    ctx.compared();
+    let (ok, emitted): (bool, Option<(&'static str, Vec<u8>)>) = match case {
+        0 => match guard(|| AssetName::new(bytes.clone())) { Ok(Ok(x)) => (true, Some(("AssetName", x.to_bytes()))), Ok(Err(_)) => (false, None), Err(p) => { ctx.violation(panic_sig(P, "AssetName::new", &p), p.msg.clone()); return; } },
+        1 => match guard(|| URL::new(s.clone())) { Ok(Ok(x)) => (true, Some(("URL", x.to_bytes()))), Ok(Err(_)) => (false, None), Err(p) => { ctx.violation(panic_sig(P, "URL::new", &p), p.msg.clone()); return; } },
+        2 => match guard(|| DNSRecordAorAAAA::new(s.clone())) { Ok(Ok(x)) => (true, Some(("DNSRecordAorAAAA", x.to_bytes()))), Ok(Err(_)) => (false, None), Err(p) => { ctx.violation(panic_sig(P, "DNSRecordAorAAAA::new", &p), p.msg.clone()); return; } },
+        3 => match guard(|| DNSRecordSRV::new(s.clone())) { Ok(Ok(x)) => (true, Some(("DNSRecordSRV", x.to_bytes()))), Ok(Err(_)) => (false, None), Err(p) => { ctx.violation(panic_sig(P, "DNSRecordSRV::new", &p), p.msg.clone()); return; } },
+        4 => match guard(|| TransactionMetadatum::new_text(s.clone())) { Ok(Ok(x)) => (true, Some(("TransactionMetadatum", x.to_bytes()))), Ok(Err(_)) => (false, None), Err(p) => { ctx.violation(panic_sig(P, "TransactionMetadatum::new_text", &p), p.msg.clone()); return; } },
+        5 => match guard(|| TransactionMetadatum::new_bytes(bytes.clone())) { Ok(Ok(x)) => (true, Some(("TransactionMetadatum", x.to_bytes()))), Ok(Err(_)) => (false, None), Err(p) => { ctx.violation(panic_sig(P, "TransactionMetadatum::new_bytes", &p), p.msg.clone()); return; } },
+        6 => match guard(|| Ipv4::new(bytes.clone())) { Ok(Ok(x)) => (true, Some(("Ipv4", x.to_bytes()))), Ok(Err(_)) => (false, None), Err(p) => { ctx.violation(panic_sig(P, "Ipv4::new", &p), p.msg.clone()); return; } },
+        7 => match guard(|| Ipv6::new(bytes.clone())) { Ok(Ok(x)) => (true, Some(("Ipv6", x.to_bytes()))), Ok(Err(_)) => (false, None), Err(p) => { ctx.violation(panic_sig(P, "Ipv6::new", &p), p.msg.clone()); return; } },
+        _ => {
+            // the CDDL bounds the UTF-8 byte size, not the number of characters
+            let chars = (len + 1) / 2;
+            let t: String = "é".repeat(chars); // 2 bytes each
+            let blen = t.len();
+            match guard(|| TransactionMetadatum::new_text(t.clone())) {
+                Ok(Ok(x)) => {
+                    if blen > 64 {
+                        ctx.violation(format!("{}/constructor-accepts-beyond-bound/metadatum text (multi-byte)", P), format!("{} characters = {} bytes accepted", chars, blen));
+                    }
+                    check_bytes(ctx, "TransactionMetadatum", &x.to_bytes(), false);
+                }
+                Ok(Err(_)) => {
+                    if blen <= 64 {
+                        ctx.violation(format!("{}/constructor-rejects-within-bound/metadatum text (multi-byte)", P), format!("{} bytes rejected", blen));
+                    }
+                }
+                Err(p) => ctx.violation(panic_sig(P, "TransactionMetadatum::new_text", &p), p.msg.clone()),
+            }
+            return;
+        }
+    };
+    if ok && !expect_ok {
+        ctx.violation(format!("{}/constructor-accepts-beyond-bound/{}", P, what), format!("length {} accepted, bound {}", len, bound));
+    }
+    if !ok && expect_ok {
+        ctx.violation(format!("{}/constructor-rejects-within-bound/{}", P, what), format!("length {} rejected, bound {}", len, bound));
+    }
+    ctx.hit(if ok { "constructor-accepts" } else { "constructor-rejects" });
+    if let Some((name, b)) = emitted {
+        check_bytes(ctx, name, &b, false);
+    }
+}
+
+pub fn scenario(name: &str, tier: Tier) -> Option<BoxedScenario> {
+    match name {
+        "constructor_bounds" => Some(Box::new(sc_constructor_bounds)),
+        _ => crate::props::c01::scenario_for(Mode::C03, name).or_else(|| crate::builder::scenario_for(P, name, tier)),
+    }
+}
+
+pub fn run(tier: Tier, seed: u64) -> i32 {
+    let mut rep = Report::new(P, tier, seed);
+    if let Err(e) = crate::refcbor::self_test() {
+        crate::engine::machinery(format!("refcbor self-test failed: {}", e));
+    }
+    rep.rule = "every generated value of every root type (as C01: all values within D deviations, presence products, PPU corners), every nested codec value that has a CDDL rule, validated by cddl.rs; validating constructors at bound-1/bound/bound+1; every transaction of the builder exploration in builder-output mode. distinct = distinct (type, bytes)".into();
+    rep.assume("plain (non-validating) setters are given in-range arguments (tx index <= 65535, donation >= 1, network id 0/1, ...)");
+    rep.assume("pre-Conway shapes the library still offers (update, MIR, genesis delegation, legacy registration certificates, array redeemers, legacy outputs, PPU keys 12-15) are validated against their Babbage shapes and counted as legacy-shape");
+    rep.assume("the CDDL does not constrain map key order; canonical ordering is C16's subject. Blocks and headers are not parts of a transaction and have no rule here");
+    rep.trusted_base = vec!["harness/src/cddl.rs = hand transcription of the Conway CDDL (notes/conway.cddl)".into(), "harness/src/refcbor.rs".into()];
+    rep.required_hits = vec!["conforms", "legacy-shape", "constructor-accepts", "constructor-rejects"];
+    crate::props::c01::run_generators(&mut rep, Mode::C03, tier, seed);
+    let f = scenario("constructor_bounds", tier).unwrap();
+    let st = explore("constructor_bounds", &*f, &Opts::new(seed));
+    rep.add("constructor_bounds", "full product", st);
+    crate::builder::explore_for(P, tier, seed, &mut rep);
+    rep.finish()
+}
